@@ -14,6 +14,6 @@ PROP = {
     "streams": [{"name": "c04", "join": True, "shards": {"quick": 2, "thorough": 16}}],
     "modules": ["GbVerif.Model.Core"],
     "rule": "120 (thorough 4000) programs x 2500 (6000) block steps; program = init (TMA/TAC/STAT/LYC/LCDC/IE random from small sets) + 6..15 fragments "
-            "in a loop; non-trivial = more than 20 distinct program counters were visited",
+            "in a loop; non-trivial = more than 10 distinct block entry points were visited",
     "assumptions": ["the whole-machine Lean model (devices with time composed with the CPU) is not built; device behaviour is a parameter of the theorem"],
 }
